@@ -333,8 +333,13 @@ def dask_roundtrip(rep, acc, sc, cfg):
     import pandas as pd
     parts_by_ds = [[w.partitions[i].compute() for i in range(w.npartitions)] for w in written]
     projs = cfg.get('projections') or projections(rng, frames[0], cfg['quick'])
+    single_file = None
     if nds == 1:
         arg_list = [('single', paths[0], [0], projs)]
+        if len(parts_by_ds[0]) >= 2:
+            # one part file read on its own: exactly one piece
+            jf = rng.randrange(len(parts_by_ds[0]))
+            single_file = (os.path.join(paths[0], f'part.{jf}.parquet'), jf)
     else:
         given = list(range(nds))
         rev = given[::-1]
@@ -345,10 +350,15 @@ def dask_roundtrip(rep, acc, sc, cfg):
         if nds == 3:
             rot = [2, 0, 1]
             arg_list.append(('list-rotated', [paths[i] for i in rot], rot, projs[:1]))
+    if single_file is not None and os.path.exists(single_file[0]):
+        arg_list.append(('single-file', single_file[0], None, projs[:1]))
     for how, arg, order, hprojs in arg_list:
         # rows come back dataset by dataset in the order the paths were GIVEN (glob: expansion order),
-        # inside a dataset in part-number order
-        parts = [p for i in order for p in parts_by_ds[i]]
+        # inside a dataset in part-number order, inside a part in stored order
+        if how == 'single-file':
+            parts, order = [parts_by_ds[0][single_file[1]]], [0]
+        else:
+            parts = [p for i in order for p in parts_by_ds[i]]
         exp = pd.concat(parts) if len(parts) > 1 else parts[0]
         for proj in hprojs:
             m = {**meta, 'columns': proj, 'how': how, 'dataset_order': order,
@@ -381,6 +391,13 @@ def dask_roundtrip(rep, acc, sc, cfg):
             if list(r.columns) != list(got.columns):
                 rep.violation('meta-columns:dask', f'meta columns {list(r.columns)} differ from the computed {list(got.columns)}', m)
             if (proj is None or 'v' in proj) and list(got['v']) != list(exp['v']) \
+                    and sorted(got['v']) == sorted(exp['v']) and len(parts) == 1:
+                rep.violation('row-order:dask',
+                              f'{how}: the rows of a one-piece read come back in another order than stored '
+                              f'(index {cfg["index_kind"]})',
+                              {**m, 'read_v': [int(x) for x in got['v']][:40], 'expected_v': [int(x) for x in exp['v']][:40],
+                               'read_index': [str(x) for x in got.index][:40]})
+            elif (proj is None or 'v' in proj) and list(got['v']) != list(exp['v']) \
                     and sorted(got['v']) == sorted(exp['v']):
                 rep.violation('dataset-order:dask',
                               f'{how}: rows are not the concatenation of the datasets in the order given '
@@ -391,9 +408,106 @@ def dask_roundtrip(rep, acc, sc, cfg):
             rep.evaluations += 1
             rep.count(f'dask:{how}:{len(parts)}parts')
             rep.count(f'dask:{cfg["index_kind"]}:{"all" if proj is None else "proj"}')
+            if len(parts) == 1 and len(exp) > 1 and not (exp.index.is_monotonic_increasing):
+                rep.count('dask:one-piece-nonmonotonic-index')
             if nds > 1 and order != sorted(order, key=lambda i: paths[i]):
                 rep.count('dask:list-not-in-path-order')
             rep.nontrivial(('dask', json.dumps(cfg, sort_keys=True, default=str), how, str(proj)))
+
+
+# --------------------------------------------------------------------------
+# histories that reuse a path / a glob pattern within one process
+# --------------------------------------------------------------------------
+def reuse_history(rep, acc, sc, cfg):
+    """write k partitions -> read -> overwrite the SAME path with more, then fewer partitions -> read
+    again each time (also through pack_partitions_to_parquet(overwrite=True), whose returned frame is such
+    a read); read a glob -> add a dataset matching it -> read the glob again.  Every read must show the
+    files as they are now."""
+    import random
+    import pandas as pd
+    import dask.dataframe as dd
+    from spatialpandas.io import read_parquet_dask
+    rng = random.Random(cfg['seed'])
+    meta = {'stream': 'reuse', 'path_kind': 'dask', 'cfg': cfg, 'index_kind': 'named'}
+    gcols = geom_cols(rng, cfg['kinds'], cfg['subtypes'])
+    step = [0]
+
+    def frame(n, off):
+        df, _ = U.make_frame(rng, n, gcols, index_kind='named', derive_steps=0, nan_p=0)
+        df = df[sorted(df.columns)]
+        df['v'] = df['v'] + off
+        return df
+
+    def write(df, path, nparts, **kw):
+        ddf = dd.from_pandas(df, npartitions=nparts, sort=False)
+        ddf.to_parquet(path, **kw)
+        return [ddf.partitions[i].compute() for i in range(ddf.npartitions)]
+
+    def read_check(arg, parts, what):
+        step[0] += 1
+        m = {**meta, 'step': step[0], 'what': what, 'columns': None}
+        exp = pd.concat(parts) if len(parts) > 1 else parts[0]
+        try:
+            r = read_parquet_dask(arg)
+            got = r.compute()
+        except Exception as e:
+            rep.violation('reuse-read-raises:' + type(e).__name__,
+                          f'{what}: read_parquet_dask raised {e!r}'[:300], m)
+            return
+        rep.evaluations += 1
+        rep.count('reuse:' + what.split(':')[0])
+        rep.nontrivial(('reuse', cfg['seed'], what))
+        if r.npartitions != len(parts) or len(got) != len(exp) or list(got['v']) != list(exp['v']):
+            rep.violation('reuse-stale:' + what.split(':')[0],
+                          f'{what}: {r.npartitions} partitions / {len(got)} rows read, the files now hold '
+                          f'{len(parts)} partitions / {len(exp)} rows',
+                          {**m, 'read_v': [int(x) for x in got['v']][:30], 'expected_v': [int(x) for x in exp['v']][:30]})
+            return
+        compare_frames(rep, acc, exp, got, None, m, 'GeoDataFrame')
+
+    k0, kmore, kless = cfg['k']
+    P = os.path.join(sc.dir, 'reused')
+    a = frame(3 * k0, 0)
+    read_check(P, write(a, P, k0), f'path-first:{k0}')
+    b = frame(2 * kmore, 10000)
+    read_check(P, write(b, P, kmore, overwrite=True), f'path-overwritten-more:{k0}->{kmore}')
+    c = frame(2 * kless + 1, 20000)
+    read_check(P, write(c, P, kless, overwrite=True), f'path-overwritten-fewer:{kmore}->{kless}')
+    # pack_partitions_to_parquet(overwrite=True) onto the path read before
+    if cfg.get('pack', True):
+        step[0] += 1
+        m = {**meta, 'step': step[0], 'what': 'pack-overwrite', 'columns': None}
+        src = frame(3 * kmore, 30000).reset_index(drop=True)
+        try:
+            ret = dd.from_pandas(src, npartitions=2).pack_partitions_to_parquet(P, npartitions=kmore, p=6,
+                                                                                overwrite=True)
+            got = ret.compute()
+            nfiles = len([f for f in os.listdir(P) if f.endswith('.parquet')])
+            again = read_parquet_dask(P).compute()
+        except Exception as e:
+            rep.violation('reuse-read-raises:' + type(e).__name__,
+                          f'pack_partitions_to_parquet(overwrite=True) on a path read before raised {e!r}'[:300], m)
+        else:
+            rep.evaluations += 1
+            rep.count('reuse:pack-overwrite')
+            if ret.npartitions != nfiles or sorted(got['v']) != sorted(src['v']) or list(again['v']) != list(got['v']):
+                rep.violation('reuse-stale:pack-overwrite',
+                              f'frame returned by pack_partitions_to_parquet(overwrite=True): {ret.npartitions} partitions / '
+                              f'{len(got)} rows, the dataset holds {nfiles} part files / {len(src)} rows',
+                              {**m, 'returned_v': sorted(int(x) for x in got['v'])[:30]})
+            else:
+                e2 = src.sort_values('v').reset_index(drop=True)
+                g2 = got.sort_values('v').reset_index(drop=True)
+                compare_frames(rep, acc, e2, g2, None, m, 'GeoDataFrame')
+    # a glob pattern used twice, with a dataset added (and one rewritten) in between
+    G = os.path.join(sc.dir, 'gl_*')
+    pa_ = write(frame(4, 40000), os.path.join(sc.dir, 'gl_a'), 2)
+    read_check(G, pa_, 'glob-first:1 dataset')
+    pb_ = write(frame(2 * kmore, 50000), os.path.join(sc.dir, 'gl_b'), kmore)
+    read_check(G, pa_ + pb_, 'glob-dataset-added:2 datasets')
+    pa2 = write(frame(9, 60000), os.path.join(sc.dir, 'gl_a'), 3, overwrite=True)
+    read_check(G, pa2 + pb_, 'glob-dataset-rewritten:2 datasets')
+    read_check([os.path.join(sc.dir, 'gl_b'), os.path.join(sc.dir, 'gl_a')], pb_ + pa2, 'list-after-glob:2 datasets')
 
 
 # --------------------------------------------------------------------------
@@ -543,6 +657,14 @@ def configs(rep, tier):
                       'ndatasets': (2 if j % 12 == 5 else 3) if j % 6 == 5 else 1,
                       'npartitions2': [11, 2, 12, 3][(j // 6) % 4],
                       'seed': rng.randrange(10 ** 9), 'quick': quick})
+    # exactly one piece and an index that is not increasing (decreasing, shuffled, non-unique unsorted)
+    for t in range(1 if quick else 6):
+        for ik in ('decreasing', 'named', 'unnamed', 'nonunique_shuffled'):
+            k, s = rng.choice(combos)
+            k2, s2 = rng.choice(combos)
+            dask_.append({'kinds': (k, k2), 'subtypes': (s, s2), 'nrows': rng.randint(4, 9), 'npartitions': 1,
+                          'index_kind': ik, 'derive': t % 2, 'nan_p': 0, 'compression': comp[t % 3], 'sort': False,
+                          'ndatasets': 1, 'seed': rng.randrange(10 ** 9), 'quick': quick})
     return pand, dask_
 
 
@@ -599,7 +721,10 @@ def run(rep):
                 'sort, one dataset, or two / three datasets (>= 2 partitions each, one with >= 11; directory names whose sorted order differs from the given order, one nested) read as a list in the given, reversed and rotated order and by glob; projections: None, one geometry column, reversed, '
                 'random subset in random order, index column requested explicitly.  dtype names: 7 kinds x 16 '
                 'subtype spellings x case / bracket / suffix / newline mutations + random strings.  Every round '
-                'trip with a distinct (configuration, projection) is non-trivial')
+                'trip with a distinct (configuration, projection) is non-trivial.  Also: 1-partition datasets and single '
+                'part files (exactly one piece) with decreasing / shuffled / non-unique unsorted indexes; histories that '
+                'reuse a path (overwrite with more, then fewer partitions; pack_partitions_to_parquet(overwrite=True)) '
+                'and a glob pattern (dataset added / rewritten between two reads) within the process')
     acc = Acc()
     recording.rep = rep
     with dask.config.set(scheduler='synchronous'), U.Scratch() as sc, recording():
@@ -614,6 +739,12 @@ def run(rep):
         for cfg in dask_:
             with U.Scratch() as s2:
                 dask_roundtrip(rep, acc, s2, cfg)
+        for t in range(1 if tier == 'quick' else 8):
+            k, s = rep.rng.choice([(k, s) for k in G.KINDS for s in G.SUBTYPES])
+            cfg = {'kinds': (k, 'point'), 'subtypes': (s, 'float64'), 'seed': rep.rng.randrange(10 ** 9),
+                   'k': [(3, 12, 2), (2, 11, 1), (4, 13, 3)][t % 3], 'pack': t % 2 == 0}
+            with U.Scratch() as s2:
+                reuse_history(rep, acc, s2, cfg)
     finish(rep, acc)
 
 
@@ -626,6 +757,8 @@ def replay(rep, rp):
             U.natsort_check(rep, [rp['names']], 'C11')
         elif stream == 'dtype':
             dtype_name_check(rep, [rp['string']])
+        elif stream == 'reuse':
+            reuse_history(rep, acc, sc, _cfg_from_json(rp['cfg']))
         else:
             cfg = _cfg_from_json(rp['cfg'])
             cfg['projections'] = [rp.get('columns')]
